@@ -60,8 +60,9 @@ pub fn exec(toks: &[&str]) -> String {
     // environment modifiers, irrelevant to the protocol: `@old` = the prior file was last modified two
     // hours ago (stores through a mapping do not refresh st_mtime), `@bin` = its name is not valid UTF-8
     // `@uid` = the restart happens under uid 65534, which owns the directory but not the file root left there
-    let (mut old, mut bin, mut uid) = (false, false, false);
-    while toks[i].starts_with('@') { match toks[i] { "@old" => old = true, "@bin" => bin = true, "@uid" => uid = true, _ => return "bad-modifier".into() } i += 1; }
+    // `@link` = the segment path is a symbolic link to the file (a runtime directory laid out by a packaging script)
+    let (mut old, mut bin, mut uid, mut link) = (false, false, false, false);
+    while toks[i].starts_with('@') { match toks[i] { "@old" => old = true, "@bin" => bin = true, "@uid" => uid = true, "@link" => link = true, _ => return "bad-modifier".into() } i += 1; }
     let prior = toks[i]; i += 1;
     // `valid <gen> <k>` (layout version 1), `validv <version> <gen> <k>` or `foreign <gen> <k>` (version 1,
     // wrong second magic word)
@@ -79,6 +80,9 @@ pub fn exec(toks: &[&str]) -> String {
     };
     let _ = std::fs::remove_file(&path);
     let _ = std::fs::remove_dir_all(&path);
+    // with `@link` the prior content goes to `<path>.real` and the path itself is a symbolic link to it
+    let link_path = path.clone();
+    let path: std::path::PathBuf = if link { let mut r = path.clone().into_os_string(); r.push(".real"); let r: std::path::PathBuf = r.into(); let _ = std::fs::remove_file(&r); r } else { path };
     let header_m = |magic1: u32, ver: u16, gen: u16, cells: [u64; 7]| {
         let mut b = Vec::new();
         b.extend_from_slice(&0x414D5A4Eu32.to_ne_bytes()); b.extend_from_slice(&magic1.to_ne_bytes());
@@ -97,6 +101,8 @@ pub fn exec(toks: &[&str]) -> String {
         "foreign" => std::fs::write(&path, header_m(0x43420100, 1, pg as u16, rec_cells(pk))).unwrap(),
         _ => return "bad-prior".into(),
     }
+    // from here on everybody (writer, readers, observations) uses the link; metadata() follows it
+    let path: std::path::PathBuf = if link { let _ = std::fs::remove_file(&link_path); std::os::unix::fs::symlink(&path, &link_path).unwrap(); link_path } else { path };
     let c = { use std::os::unix::ffi::OsStrExt; CString::new(path.as_os_str().as_bytes()).unwrap() };
     if old && path.exists() {
         let t = libc::timespec { tv_sec: unsafe { libc::time(std::ptr::null_mut()) } - 7200, tv_nsec: 0 };
@@ -164,6 +170,11 @@ pub fn grid() -> Vec<String> {
     // the restart under a service account that owns the directory but not the file
     for p in ["valid 4 90", "valid 7 91", "validv 3 6 95", "foreign 4 97", "garbage", "wiped"] {
         for k in [0, 5, 12, 18, 30] { v.push(format!("crashpt @uid {} {} 1 2", p, k)); }
+    }
+    for m in ["@link", "@link @old"] {
+        for p in ["valid 4 90", "valid 7 91", "wiped", "missing", "foreign 4 97"] {
+            for k in [0, 5, 12, 18, 30] { v.push(format!("crashpt {} {} {} 1 2", m, p, k)); }
+        }
     }
     for m in ["@old", "@bin", "@old @bin"] {
         for p in ["valid 4 90", "valid 7 91", "wiped", "missing", "foreign 4 97"] {
